@@ -259,11 +259,12 @@ SLICES = [
         "name": "verif_fen_ep",
         "file": "chess/mod.rs",
         "within": r"^\s*pub fn new\(fen: &str\)",
-        "header": "impl Game { pub(crate) fn verif_fen_ep(en_passant: &str, state_in: GameState, current_player: Player) -> anyhow::Result<GameState>",
+        "header": "impl Game { pub(crate) fn verif_fen_ep(en_passant: &str, state_in: GameState, current_player: Player, board: [Option<Piece>; 64]) -> anyhow::Result<GameState>",
         "pre": "let mut state = state_in;",
         "regions": [{"start": r'^\s*if en_passant != "-" \{', "end": ("block",)}],
         "post": "Ok(state) }",
-        "drops": "the `let Some(en_passant) = terms.next()` line",
+        "drops": "the `let Some(en_passant) = terms.next()` line (the scanned `board` is in scope at this point of Game::new and is therefore a parameter, "
+                 "although the current code does not read it)",
     },
     {
         "name": "verif_fen_tail",
